@@ -147,7 +147,7 @@ theorem raw_of_status (flags : Nat) {pos E : Nat} {st : Int} {c : Ctx} {out : Ar
     · rw [← he]; exact h.1
     · rw [hst] at h; exact absurd h.1 (by decide)
     · rw [hst] at h; exact absurd h.1 (by decide)
-    · rw [hst] at h; exact absurd h (by decide)
+    · rw [hst] at h; exact absurd h.1 (by decide)
   · exact Or.inr hst
 
 /-- TWO CALLS AGAINST ONE. `res1`: a call on `a` that reports "needs more input" or "has more
@@ -307,7 +307,7 @@ theorem decompress_resume (r : Regs) (a b out : Array UInt8) (pos budget1 budget
           · exact Or.inl h.1
           · exact Or.inr (Or.inr (Or.inl h.1))
           · exact absurd h.1 hF
-          · exact Or.inr (Or.inr (Or.inr h))
+          · exact Or.inr (Or.inr (Or.inr h.1))
         -- res.status = exitStatus st2 c2 …; rule the two failures out
         have hres_status : res.status = exitStatus st2 c2 (min (c1.outPos + budget2) out1.size) := by rw [a1, h]
         rw [hres_status] at hnf hnp ⊢
